@@ -311,10 +311,10 @@ func (n *node) txnOffsetCommit(txid string, pid int64, epoch int16, group, topic
 }
 
 type committed struct {
-	Offset int64  `json:"offset"`
-	Epoch  int32  `json:"epoch"`
-	Meta   string `json:"meta"`
-	HasMeta bool  `json:"has_meta"`
+	Offset  int64  `json:"offset"`
+	Epoch   int32  `json:"epoch"`
+	Meta    string `json:"meta"`
+	HasMeta bool   `json:"has_meta"`
 }
 
 // offsetFetch returns the committed offset of one (group, topic, partition);
